@@ -35,6 +35,9 @@ type Case struct {
 	Passes    int    `json:"passes"`
 	Consumers int    `json:"consumers"`
 	Engine    bool   `json:"through_engine"`
+	// unbounded cells: pause between the consumers' last Acquire and the cancel, and (generic json provider) queue size
+	SettleUs int `json:"settle_us,omitempty"`
+	Queue    int `json:"ammo_queue_size,omitempty"`
 }
 
 func isHTTP(k string) bool {
@@ -59,6 +62,12 @@ func genCase(t *rapid.T) Case {
 	}
 	c.Consumers = rapid.IntRange(1, 4).Draw(t, "consumers")
 	c.Engine = rapid.IntRange(0, 2).Draw(t, "engine") == 0
+	if c.Limit == 0 && c.Passes == 0 {
+		c.SettleUs = rapid.SampledFrom([]int{0, 300, 3000, 20000}).Draw(t, "settleUs")
+	}
+	if c.Kind == "json" {
+		c.Queue = rapid.SampledFrom([]int{0, 1, 4, 64}).Draw(t, "queue")
+	}
 	return c
 }
 
@@ -142,6 +151,9 @@ func buildConf(c Case) (conf map[string]any, cleanup func(), err error) {
 		}
 		conf["type"] = "json"
 		conf["source"] = map[string]any{"type": "file", "path": write(".json", []byte(sb.String()))}
+		if c.Queue > 0 {
+			conf["ammo-queue-size"] = c.Queue
+		}
 	default:
 		return nil, cleanup, fmt.Errorf("bad kind %s", c.Kind)
 	}
@@ -211,9 +223,11 @@ func check(c Case, o *vf.Obs) error {
 	}
 	// unbounded: take 3E+2, then cancel; everything must come back promptly
 	want := 3*c.Entries + 2
-	res, err := provrun.Drain(p, want, c.Consumers, hangDeadline, nil)
+	o.ClassIf(c.SettleUs > 0, "cancel_after_consumers_stopped")
+	o.ClassIf(c.SettleUs > 0, c.Kind+"/cancel_after_consumers_stopped")
+	res, err := provrun.DrainSettle(p, want, c.Consumers, hangDeadline, time.Duration(c.SettleUs)*time.Microsecond, nil)
 	if err != nil {
-		return fmt.Errorf("%s unbounded: %v", c.Kind, err)
+		return fmt.Errorf("%s unbounded, cancelled %dus after the consumers took their last ammo: %v", c.Kind, c.SettleUs, err)
 	}
 	if len(res.Items) != want {
 		return fmt.Errorf("%s unbounded (limit=0, passes=0): only %d ammo delivered of the %d requested (Run error: %v)", c.Kind, len(res.Items), want, res.RunErr)
